@@ -106,13 +106,6 @@ Proof.
     + cbn [negb]. destruct (parse_tz (c5 :: t5')); [rewrite Hb|]; reflexivity.
 Qed.
 
-Lemma frac6_print u : (u < 1000000)%N -> frac6 (print_fixed 6 u) = u.
-Proof.
-  intros H. unfold frac6. rewrite firstn_app, print_fixed_length, Nat.sub_diag.
-  rewrite firstn_all2 by (rewrite print_fixed_length; lia). rewrite firstn_O.
-  rewrite read_print_fixed by (cbn; lia). reflexivity.
-Qed.
-
 Lemma frac_tz_parse_gen u B : (u < 1000000)%N -> starts_digit B = false ->
   match B with c :: _ => (c =? c_dot)%N | [] => false end = false ->
   frac_tz_parse (frac_of u ++ B) = match parse_tz B with Some z => Some (u, z) | None => None end.
